@@ -798,7 +798,7 @@ pub fn input_strategy() -> BoxedStrategy<Input> {
     let len = prop_oneof![60 => Just(0u32), 25 => 1u32..6, 12 => 6u32..300, 3 => 300u32..20000];
     let ent = (gap, len, 1u8..30, prop_oneof![6 => Just(0u8), 2 => Just(9u8), 2 => 1u8..=254], 0u8..23, prop_oneof![6 => Just(0u8), 1 => Just(1u8), 2 => Just(2u8), 2 => Just(3u8), 2 => Just(4u8)], 0u8..10, 0x20u32..0x3000);
     let props = |nvals: u8| vec((prop_oneof![3 => 0u32..3, 2 => 3u32..40, 1 => 40u32..3000], prop_oneof![2 => Just(0u32), 2 => 1u32..8, 1 => 8u32..200], 0..nvals), 0..12);
-    (prop_oneof![6 => Just(0u32), 4 => 0u32..0x100, 2 => 0u32..0x2000, 2 => 0xd7c0u32..0xd810, 1 => 0xdfc0u32..0xe010, 1 => 0xfd80u32..0xfdd0, 1 => 0xff80u32..0xfff0, 1 => 0x10ff00u32..0x10fff0], vec(ent, 0..40), props(7), props(6), props(3), props(2), props(5), any::<u8>(), vec(prop_oneof![3 => Just(0u32), 1 => 0xd7c0u32..0xd810, 1 => 0xdfc0u32..0xe010, 1 => 0x10ff00u32..0x10fff0], 5))
+    (prop_oneof![6 => Just(0u32), 4 => 0u32..0x100, 2 => 0u32..0x2000, 2 => 0xd7c0u32..0xd810, 1 => 0xdfc0u32..0xe010, 1 => 0xfd80u32..0xfdd0, 1 => 0xff80u32..0xfff0, 1 => 0x10ff00u32..0x10fff0], prop_oneof![30 => vec(ent.clone(), 0..40), 2 => vec(ent.clone(), 200..700), 1 => vec(ent, 700..2500)], props(7), props(6), props(3), props(2), props(5), any::<u8>(), vec(prop_oneof![3 => Just(0u32), 1 => 0xd7c0u32..0xd810, 1 => 0xdfc0u32..0xe010, 1 => 0x10ff00u32..0x10fff0], 5))
         .prop_map(|(base, specs, sc, jt, pl, cp, hg, block_order, pbases)| {
             let mut ents = Vec::new();
             let mut pos = base as u64;
@@ -1044,7 +1044,7 @@ fn check_variation(which: u8, ops: &[VarOp], base_lines: &[ULine], dir: &Path, l
 pub fn run(run: &Run) {
     run.set_rule(
         "Generator ('configurations'): (a) the pinned UCD 6.3.0 directory and the pinned 16.0.0 UnicodeData.txt, every table compared at all 1,114,112 code points; \
-         (b) proptest synthetic UCD directories written under /verif/work: UnicodeData.txt with strictly increasing entries (single lines and First/Last pairs, \
+         (b) proptest synthetic UCD directories written under /verif/work: UnicodeData.txt with strictly increasing entries (0..40 entries, one input in eleven with 200..2500; single lines and First/Last pairs, \
          adjacent and non-adjacent, gaps from 0 to 0x60000, windows at 0, around the surrogate block, U+E000, U+FDD0, U+FFF0 and U+10FFF0, any of the 29 assigned categories, ccc incl. 9, all 23 bidi classes with run structure, decomposition \
          none/canonical/<wide>/<narrow>/<compat>) plus synthetic Scripts, DerivedJoiningType, PropList, DerivedCoreProperties and HangulSyllableType files (single and \
          a..b lines, property blocks in generated order); (c) proptest variations of the pinned UnicodeData files (drop line blocks, flip bidi class / category on \
